@@ -588,6 +588,8 @@ func c20More(p *load.Prog, r *oblig.Run) {
 	}
 	c20TooOld(p, r)
 	c20NoEarlyExit(p, r)
+	c20Spouses(p, r)
+	c20ValidRange(p, r)
 	cb := p.Method(load.PkgRoot, "FamilyNode", "childrenBornBeforeParentsWarnings")
 	ctor := p.Func(load.PkgRoot, "NewChildBornBeforeParentWarning")
 	if cb == nil || ctor == nil {
